@@ -36,8 +36,8 @@ class C13 : public Check
 public:
     const char *id() { return "C13"; }
     const char *opName(int k) { return rName(k); }
-    int quickRuns() { return 1500; }
-    int quickSeconds() { return 70; }
+    int quickRuns() { return 1800; }
+    int quickSeconds() { return 90; }
     int thoroughSeconds() { return 900; }
     int cpuBudgetSec() { return 30; }
     const char *rule()
